@@ -82,8 +82,8 @@ CHECKS = {
    design="5/C19"),
  "C15": dict(
    technique="TLA+ ArcLen (rational total variation of collinear Beziers, Pythagorean polylines, quarter-turn circles as multiples of pi, Walk(t) by cumulative length fractions, query/edit history machine) enumerated by TLC; replayed into length()/point(); invariance laws evaluated on MC_C02's segment table",
-   text="Exhaustive over every quadratic/cubic 1-D control tuple on 0..V with rational critical points along (1,0) and (3,4) (cusps, zero length, coincident controls) x 8 maps (isometries, scalings) x reversal x error settings 1e-4/1e-6/1e-9; circles of 1..4 quarter turns; polyline words with moves walked at t = j/8 (also as Polyline shapes); every history of <= MaxOps queries and edits (point(t) must be a function of the current segments); for all segments incl. generic curves: length unchanged by rotation/reflection/translation/reversal, scaled by |s|, chord <= length <= control polygon, path length = sum.",
-   note="Trusted: TLC, ArcLen.tla, Rat.tla. NOT decided: accuracy of length() to the requested error for generic (non-collinear) Beziers and eccentric arcs - TLC has no reals; only the relational laws cover them. Known finding: collinear cubics with a cusp ignore the requested error.",
+   text="Exhaustive over every quadratic/cubic 1-D control tuple on 0..V with rational critical points along (1,0) and (3,4) (cusps, zero length, coincident controls) x 8 maps (isometries, scalings) x reversal x error settings 1e-4/1e-6/1e-9; circles of 1..4 quarter turns; polyline words with moves walked at t = j/8 (also as Polyline shapes); every history of <= MaxOps queries and edits (point(t) must be a function of the current segments); for all segments incl. generic curves: length unchanged by rotation/reflection/translation/reversal, scaled by |s|, chord <= length <= control polygon, path length = sum; and length(error=1e-4/1e-6/1e-9) against the defining integral of the speed evaluated by quadrature from the spec's exact segment data.",
+   note="Trusted: TLC, ArcLen.tla, Rat.tla, and for generic curves a 20-line Gauss-Legendre quadrature of the spec's definition (a numeric comparator, not a TLC verdict; own error estimate <= 1e-11). Known findings: collinear cubics with a cusp ignore the requested error; generic cubics / non-circular arcs accumulate per-piece errors (~0.15 L (e/L)^(2/3)).",
    design="5/C15"),
  "C03": dict(
    technique="TLA+ DocCore (document walker as a fold of element tokens over inherited contexts: CTM, nearest viewport, display, use expansion) with Shapes/Viewport/PathOps; TLC enumerates every token prefix x caller configuration; each document serialised, parsed with reify True/False and compared shape by shape",
